@@ -352,6 +352,32 @@ def gen_wrap_tree(rng):
                 n.text = rng.choice(['$#', '[$#]', 'a $# b', '$# - $#'])
             else:
                 n.attr = rng.choice(['$#', 'v-$#'])
+    if rng.random() < 0.15:
+        # a second implicit repeater nested in the first, with a placeholder of its own: `$#` stands for the line of the CLOSEST implicit copy
+        desc = []
+
+        def collect_desc(ns, path):
+            for n in ns:
+                desc.append((n, path))
+                collect_desc(n.ch, path + [n])
+        collect_desc(imp.ch, [])
+        if desc:
+            imp2, path = rng.choice(desc)
+            for m in path:
+                m.rep = None        # nothing explicit between the two (what a re-executed implicit repeater receives is not defined)
+            imp2.rep = '*'
+            els = []
+
+            def collect_els(ns):
+                for n in ns:
+                    if not n.group:
+                        els.append(n)
+                    collect_els(n.ch)
+            collect_els([imp2])
+            if els:
+                rng.choice(els).text = rng.choice(['$#', '<$#>'.replace('<', '(').replace('>', ')'), 'i $#'])
+            else:
+                imp2.rep = None
     for n in allnodes:
         if not n.group and n.text is None and rng.random() < 0.15:
             n.text = rng.choice(['t', 'k '])
